@@ -498,6 +498,26 @@ def c_driver(ctx, res):
         shutil.rmtree(tmp, ignore_errors=True)
 
 
+def _layout15_case(case):
+    from .c14 import check_heap_layout_multi
+    sig, fails = check_heap_layout_multi(case)
+    return sig, [("layout15-" + k.split("-", 1)[1], m) for k, m in fails]
+
+
+def layouts15(ctx, res):
+    """Deeper heaps than the BFS families reach: every weakly heap-ordered array of 15 entries (4 levels) over three
+    time values, every slot as the stale entry of a handler whose counter overflowed, then a push and a complete drain
+    (heap and list scheduler, exact order).  Shares the case evaluator with C14."""
+    from .c14 import heap_labelings
+    three = [(0.0, 0.25), (0.0, 0.5), (1.0, 0.25)]
+    cases = [("hlayN", three, lab, tuple(range(15)) if ctx.thorough else tuple(range(7, 15)), ((1.0, 0.5),))
+             for lab in heap_labelings(15, 3) if lab[-1] != lab[0]]
+    n, sigs, fails = par.run_cases(_layout15_case, cases, ctx.cores, chunk=200, max_fail=20)
+    for key, case, msg in fails:
+        res.add(key, {"layout15": enc(case)}, msg)
+    return {"layouts": n, "drains": n * len(cases[0][3]) * 2}
+
+
 def plan(ctx):
     t = ctx.thorough
     pl = [(("empty", "small"), 3, 8 if t else 6), (("empty", "large"), 3, 7 if t else 5),
@@ -526,6 +546,7 @@ def run(ctx):
         states += s
         trans += t
     cinfo = c_driver(ctx, res)
+    l15 = layouts15(ctx, res)
     res.coverage = {
         "states": states, "transitions": trans, "traces_validated_against_impl": trans,
         "evaluations": trans, "distinct_nontrivial": states,
@@ -534,7 +555,7 @@ def run(ctx):
                 "by a canonical digest of heap array, counters, allocation size, list contents, last returned times "
                 "and reference; distinct_nontrivial = distinct canonical states; a drain (get+trash until empty) is "
                 "evaluated in every state",
-        "families": stats, "c_driver": cinfo,
+        "families": stats, "c_driver": cinfo, "layouts_15_entries": l15,
         "samples": [s["sample"] for s in stats if s["sample"]][:4] or [enc([("push", 0, 0), ("get",)])],
         "exhaustive": True,
         "explanation": "the model is the reference dict; there is no separate model trace to validate: every explored "
@@ -549,6 +570,9 @@ def run(ctx):
 
 
 def replay(ctx, case):
+    if "layout15" in case:
+        _, fails = par.guarded(_layout15_case)(tuple(dec(case["layout15"])))
+        return sorted(set(k for k, _ in fails)) or None
     if "c_driver" in case:
         r = type("R", (), {"violations": [], "notes": [], "add": lambda self, k, c, m: self.violations.append(k)})()
         c_driver(ctx, r)
